@@ -171,15 +171,21 @@ Definition dec_fam (z : Z) : option fam :=
 Definition dec_fn (z : Z) : option fn :=
   match z with 0%Z => Some Norm | 1%Z => Some Strip | 2%Z => Some Net | 3%Z => Some Bcast | _ => None end.
 Definition VE_NAME : str := bytes_of_string "ValueError".
+(* a Python str: #hex when all code points are below 256, otherwise the list of its code points
+   (non-Latin-1 text, e.g. non-ASCII decimal digits, reaches the model unchanged and comes back so) *)
+Definition asStr (x : sx) : option str :=
+  match x with B s => Some s | L l => omap asN l | _ => None end.
+Definition enc_str (s : str) : sx :=
+  if forallb (fun c => (c <? 256)%N) s then B s else L (map sxN s).
 Definition dec_res (x : sx) : option res :=
   match x with
-  | L [I 0%Z; B s] => Some (Ok s)
+  | L [I 0%Z; s] => option_map Ok (asStr s)
   | L [I 1%Z; B n] => Some (Exc (if str_eqb n VE_NAME then ValueError else OtherExc n))
   | _ => None
   end.
 Definition enc_res (r : res) : sx :=
   match r with
-  | Ok s => L [I 0%Z; B s]
+  | Ok s => L [I 0%Z; enc_str s]
   | Exc ValueError => L [I 1%Z; B VE_NAME]
   | Exc (OtherExc n) => L [I 1%Z; B n]
   end.
@@ -191,9 +197,9 @@ Definition dec_ref (x : sx) : option (option res) :=
   end.
 Definition dec_pent (x : sx) : option (str * pres) :=
   match x with
-  | L [B k; I 0%Z; B b] => Some (k, PBytes b)
-  | L [B k; I 1%Z; B _] => Some (k, POSError)
-  | L [B k; I 2%Z; B _] => Some (k, PValueError)
+  | L [k; I 0%Z; B b] => option_map (fun k => (k, PBytes b)) (asStr k)
+  | L [k; I 1%Z; B _] => option_map (fun k => (k, POSError)) (asStr k)
+  | L [k; I 2%Z; B _] => option_map (fun k => (k, PValueError)) (asStr k)
   | _ => None
   end.
 Definition dec_nent (x : sx) : option (list N * str) :=
@@ -209,14 +215,15 @@ Definition enc_obs (o : obs) : sx := L [enc_res (r1 o); enc_res (r2 o); enc_res 
 
 Definition decode (x : sx) : option (case * obs) :=
   match x with
-  | L [I f; I g; I r; B a; B b; B mc; B md; pt; nt; rf1; rf2; I len; I ve; io] =>
+  | L [I f; I g; I r; ax; bx; B mc; B md; pt; nt; rf1; rf2; I len; I ve; io] =>
+      obind (asStr ax) (fun a => obind (asStr bx) (fun b =>
       obind (dec_fam f) (fun f => obind (dec_fn g) (fun g =>
       obind (asListOf dec_pent pt) (fun pt => obind (asListOf dec_nent nt) (fun nt =>
       obind (dec_ref rf1) (fun rf1 => obind (dec_ref rf2) (fun rf2 =>
       obind (dec_obs io) (fun io =>
       Some ({| cfam := f; cfn := g; craise := negb (r =? 0)%Z; s1 := a; s2 := b; mcase := mc; mdelim := md;
                ptab := pt; ntab := nt; ref1 := rf1; ref2 := rf2;
-               lenient := negb (len =? 0)%Z; ve_esc := negb (ve =? 0)%Z |}, io))))))))
+               lenient := negb (len =? 0)%Z; ve_esc := negb (ve =? 0)%Z |}, io))))))))))
   | _ => None
   end.
 
